@@ -415,6 +415,33 @@ func checkC19(P *Prog, r *Result) {
 			}
 		})
 	}
+	// ... nor does schema-owned memory become a child's *input*: an element schema may keep what it is given (a custom
+	// schema of a slice type stores its data as the destination), so the items of a Default handed to the element
+	// schemas in Parse are items of a clone
+	nd := 0
+	for _, fn := range fns {
+		eachInstr(fn, func(_ *ssa.BasicBlock, _ int, in ssa.Instruction) {
+			var val ssa.Value
+			if st, ok := in.(*ssa.Store); ok {
+				if _, f := fieldVar(st.Addr); f != nil && sameField(f, R.FData) {
+					val = st.Val
+				}
+			}
+			if ci := callOf(in); ci != nil && (P.isSchemaCtxMethod(ci, "NewSchemaCtx")) && len(ci.args()) > 1 {
+				val = ci.args()[1]
+			}
+			if val == nil || !isRefLike(val.Type()) {
+				return
+			}
+			nd++
+			c := fmt.Sprintf("%s#child-data@%d", fname(fn), nd)
+			if bad := schemaOwned(fn, val); len(bad) > 0 {
+				r.bad("C19/default-not-aliased", c, P.ipos(in), "memory owned by the schema (a Default) is handed to a child node as its input data without a clone: a child that keeps its input (a custom schema of a slice, map or pointer type does `*dest = data`) makes the destination share it, and writing to the result changes the schema's default", bad...)
+			} else {
+				r.ok("C19/default-not-aliased", c, P.ipos(in), "the child's input data does not derive from schema-owned memory")
+			}
+		})
+	}
 	r.floor("C19/default-not-aliased", 5)
 
 	// (c) validate-mode destination writes only on default / catch paths
